@@ -55,7 +55,7 @@ from spyne.const.http import HTTP_405, HTTP_500
 from spyne.error import RequestNotAllowed
 from spyne.model.fault import Fault
 from spyne.model.primitive import Date, Time, DateTime
-from spyne.protocol.xml import XmlDocument
+from spyne.protocol.xml import XmlDocument, refuse_entity_declarations
 from spyne.protocol.soap.mime import collapse_swa
 from spyne.server.http import HttpTransportContext
 
@@ -221,6 +221,8 @@ class Soap11(XmlDocument):
         ctx.in_document = _parse_xml_string(ctx.in_string,
                                             XMLParser(**self.parser_kwargs),
                                                                         charset)
+
+        refuse_entity_declarations(ctx.in_document[0], self.parser_kwargs)
 
     def decompose_incoming_envelope(self, ctx, message=XmlDocument.REQUEST):
         envelope_xml, xmlids = ctx.in_document
